@@ -176,6 +176,24 @@ HANDOFF_OK = {
 }
 
 
+RELEASE_OK = {
+    "_after_fork_parent": "fork bracket: releases what before_fork took",
+    "_after_fork_child": "fork bracket: releases what before_fork took",
+    "_unlock": "exported unlock API of the structure",
+}
+
+
+def released_not_taken(ctx, lib, mode):
+    from . import lockorder
+    key = ("_released_not_taken", lib, mode)
+    c = ctx.__dict__.setdefault("_lint_cache", {})
+    if key not in c:
+        g = lockorder.LibGraph({lib: ctx.mod(lib, mode)})
+        summ = g.summaries()
+        c[key] = {n: set(v[1]) for n, v in summ.items() if v[1]}
+    return c[key]
+
+
 def held_at_return(ctx, lib, mode):
     """{function name: locks that may still be held at a return} for one module (cached)"""
     from . import lockorder
@@ -209,10 +227,19 @@ def check_lockpair(ctx, rep, pid):
         if any(name.endswith(k) or name == k for k in HANDOFF_OK):
             continue
         bad.append((lib, name, held))
+    for path, name in sorted(rep.fn_seen):
+        parts = os.path.basename(path).split(".")
+        if len(parts) < 3 or parts[0].startswith("w_") or parts[-2] != "flat":
+            continue
+        lib = ".".join(parts[:-2])
+        rel = set(x for x in (released_not_taken(ctx, lib, "flat").get(name) or ()) if not x.startswith("arg") and x != "?")
+        if rel and not any(name.endswith(k) for k in RELEASE_OK):
+            rep.bad("%s.lockpair" % pid, "%s.%s.unlock-without-lock" % (lib, name), "%s unlocks %s without having locked it: the section it closes was never opened (its accesses run unprotected, "
+                    "and the unlock of a mutex not owned is undefined)" % (name, sorted(rel)), [name])
     for lib, name, held in bad:
         rep.bad("%s.lockpair" % pid, "%s.%s" % (lib, name), "%s can return with %s still held (an unlock is missing on some path): the next thread that needs the lock - a concurrent caller of the same "
                 "function, a helper, the fork handlers - blocks for ever" % (name, sorted(held)), [name])
-    if not bad:
+    if not bad and not any(r["rule"] == "%s.lockpair" % pid and r["status"] != "pass" for r in rep.results):
         rep.ok("%s.lockpair" % pid, "locks-released", "none of the %d inspected functions can return holding a lock (lock-handoff functions excepted; detector verified on witness/selfcheck.c)" % n, [])
 
 
